@@ -150,6 +150,10 @@ def pool_check(ctx):
         open(p, 'w').write(racelog)
         viol.append(dict(property='C14', kind='data race reported by the Go race detector', version='', input='8 goroutines driving all exported functions of all four packages',
                          expected='no race', observed=racelog[:1500], replay=dict(mode='race', report=p)))
+    # (j) every CPU calls Set / Get on its own objects with every (metric, legal value) pair
+    cs = ctx.harness('concset', prop='C14', aux=json.dumps(tabs), n=1500000 if thorough else 150000)
+    viol += cs['violations']
+    cov['compared']['concurrent Set / Get calls'] = cs['evaluations']
     # (i) shared read-only objects: every CPU reads the SAME objects through every read-only method; plain and -race build
     for exe in (None, race):
         sr = ctx.harness('sharedread', prop='C14', aux=json.dumps(tabs), exe=exe, n=(30000 if thorough else 4000) // (1 if exe is None else 4), env={'GORACE': 'exitcode=0 halt_on_error=0'})
